@@ -1,6 +1,6 @@
 SPECIFICATION Spec
 CONSTANTS
-  TypeIds = {1, 2, 3, 4}
+  TypeIds = {1, 2, 3, 4, 5}
   Name <- NameDef
   Batches <- BatchesDef
   MaxHist = @MAXHIST@
